@@ -70,12 +70,19 @@ claim("C04",
       "events written concurrently by still-running workers) is trusted.")
 
 claim("C08",
-      "Reducer failed-branch: an exhausted failure is routed iff the step has an owning handler whose recovery count "
-      "for this lineage stays within max_recoveries; the StepFailedEvent is addressed to that handler with the count "
-      "incremented and the other counts unchanged; otherwise WorkflowFailedEvent + CommandFailWorkflow carry the "
-      "original exception.",
-      "Construction of handler_for_step / catch_error_handlers (validate.py, Workflow._validate incl. "
-      "disable_validation) is not under contract yet.")
+      "Both halves are under contract. Tables: validate_catch_error_handlers returns no error IFF the handler set is "
+      "consistent (at most one wildcard, every scoped target a known non-handler step claimed exactly once), and "
+      "_collect_catch_error_handlers builds exactly: one descriptor per @catch_error step with its own configuration; "
+      "every non-handler step owned by the handler that lists it, else by the wildcard, else by nobody; a handler step "
+      "is never owned. Routing: the reducer's failed-branch routes an exhausted failure iff the step has an owning "
+      "handler whose recovery count for this lineage stays within max_recoveries, addresses the StepFailedEvent to that "
+      "handler with the count incremented (other counts unchanged), otherwise emits WorkflowFailedEvent + "
+      "CommandFailWorkflow with the original exception. The snapshot lemma adds: queued work keeps its recovery counts "
+      "across serialize/resume; work that is in flight does not (recorded known finding).",
+      "Workflow._validate (which stores the tables on the workflow, and skips doing so when disable_validation=True - "
+      "the statement's last sentence) is not under contract; field annotations are trusted as run-time types (the "
+      "isinstance(max_recoveries, int) guard is decided statically).",
+      category="other")
 
 claim("C35",
       "Per tick: starting work publishes RUNNING for the assigned slot, waiting for capacity publishes PREPARING; a "
@@ -187,3 +194,14 @@ claim("C24",
       "SQLite store parity is not covered (SQL strings; _build_filters is not under contract); asyncio interleavings "
       "of store operations are not modelled (each operation has no await between its reads and writes); the order of "
       "surviving queue entries after delete() is not stated.")
+
+claim("C23",
+      "Only the '@catch_error handlers are consistent' conjunct of the statement is decided: "
+      "validate_catch_error_handlers is proved to return an empty error list IF AND ONLY IF the handler set is "
+      "consistent (at most one wildcard; every scoped target is a known step, not a handler step, and claimed exactly "
+      "once - also within one handler's own list), for every number of handlers and targets, and "
+      "_collect_catch_error_handlers raises or returns tables that agree with it.",
+      "NOT covered: start/stop event uniqueness, produced/consumed event connectivity, reachability and dead-end "
+      "checks (graph search over a str|type node set needs a transitive-closure argument that was not built), the "
+      "skip-check options and the human-in-the-loop flag. This check must not be read as a proof of C23.",
+      category="other")
